@@ -85,6 +85,9 @@ pub fn compare(x: &XDump, d: &Dump, check_lines: bool) -> Vec<String> {
     if !names_eq(&x.defaults, &d.defaults) {
         diff.push(format!("defaults expected {:?} got {:?}", x.defaults, d.defaults));
     }
+    if x.builddir != d.builddir {
+        diff.push(format!("builddir expected {:?} got {:?}", x.builddir, d.builddir));
+    }
     if x.pools != d.pools {
         diff.push(format!("pools expected {:?} got {:?}", x.pools, d.pools));
     }
